@@ -1,4 +1,5 @@
 import OmbottModel.Py
+import OmbottModel.Py.IntLim
 /-! `int(str(n)) == n`: the decimal printer and the `int()` model are inverse. -/
 namespace Py
 
@@ -70,5 +71,108 @@ theorem pyInt_natStr (n : Nat) : pyInt (natStr n) = some (n : Int) := by
     · rename_i heq; simp at heq; exact absurd heq.1 hm
     · rename_i heq; simp at heq; exact absurd heq.1 hp
     · simp [key]
+
+
+/-! ### the interpreter's digit limit (`Py/IntLim.lean`) -/
+
+theorem filter_isDigit_of_all (ds : List Char) (hd : ∀ c ∈ ds, c.isDigit = true) :
+    ds.filter Char.isDigit = ds := List.filter_eq_self.mpr hd
+
+/-- a run of ASCII digits counts with its whole length: leading zeros count -/
+theorem intDigitCount_digits (ds : List Char) (hd : ∀ c ∈ ds, c.isDigit = true) :
+    intDigitCount ds = ds.length := by
+  unfold intDigitCount; rw [filter_isDigit_of_all ds hd]
+
+theorem intDigitCount_le_length (s : Str) : intDigitCount s ≤ s.length := List.length_filter_le _ _
+
+theorem intDigitCount_append (a b : Str) : intDigitCount (a ++ b) = intDigitCount a + intDigitCount b := by
+  simp [intDigitCount]
+
+/-- the sign does not count -/
+theorem intDigitCount_sign (c : Char) (hc : c.isDigit = false) (s : Str) :
+    intDigitCount (c :: s) = intDigitCount s := by
+  simp [intDigitCount, hc]
+
+/-- within the limit `pyIntLim` is `int()`'s grammar -/
+theorem pyIntLim_of_le {s : Str} (h : intDigitCount s ≤ Ombott.Gen.intMaxStrDigits) : pyIntLim s = pyInt s := by
+  simp [pyIntLim, h]
+
+/-- beyond the limit `int()` refuses whatever the text spells -/
+theorem pyIntLim_of_gt {s : Str} (h : Ombott.Gen.intMaxStrDigits < intDigitCount s) : pyIntLim s = none := by
+  simp [pyIntLim, Nat.not_le.mpr h]
+
+theorem pyIntLim_of_length_le {s : Str} (h : s.length ≤ Ombott.Gen.intMaxStrDigits) : pyIntLim s = pyInt s :=
+  pyIntLim_of_le (Nat.le_trans (intDigitCount_le_length s) h)
+
+theorem pyIntLim_some {s : Str} {v : Int} (h : pyIntLim s = some v) :
+    pyInt s = some v ∧ intDigitCount s ≤ Ombott.Gen.intMaxStrDigits := by
+  unfold pyIntLim at h
+  split at h
+  · exact ⟨h, by assumption⟩
+  · cases h
+
+/-- `int(str(n)) == n` for every `n` the interpreter prints -/
+theorem pyIntLim_natStr (n : Nat) (h : (natStr n).length ≤ Ombott.Gen.intMaxStrDigits) :
+    pyIntLim (natStr n) = some (n : Int) := by
+  rw [pyIntLim_of_length_le h]; exact pyInt_natStr n
+
+theorem ofDigitChars_zeros (k : Nat) (l : List Char) (acc : Nat) :
+    Nat.ofDigitChars 10 (List.replicate k '0' ++ l) acc = Nat.ofDigitChars 10 l (acc * 10 ^ k) := by
+  induction k generalizing acc with
+  | zero => simp
+  | succ k ih =>
+    rw [List.replicate_succ, List.cons_append, Nat.ofDigitChars_cons, ih]
+    congr 1
+    simp [Nat.pow_succ]
+    rw [Nat.mul_comm 10 acc, Nat.mul_assoc, Nat.mul_comm 10]
+
+/-- leading zeros in front of a canonical numeral: `int('000' + str(n)) == n` (grammar) -/
+theorem pyInt_zeros_natStr (k n : Nat) : pyInt (List.replicate k '0' ++ natStr n) = some (n : Int) := by
+  have hd : ∀ c ∈ List.replicate k '0' ++ natStr n, c.isDigit = true := by
+    intro c hc
+    rcases List.mem_append.mp hc with h | h
+    · rw [(List.mem_replicate.mp h).2]; decide
+    · exact natStr_digits n c h
+  have hne : List.replicate k '0' ++ natStr n ≠ [] := by
+    intro h; exact natStr_ne_nil n (List.append_eq_nil_iff.mp h).2
+  unfold pyInt
+  rw [stripBy_id _ _ (fun c hc => isDigit_not_ws c (hd c hc))]
+  have key : digitsVal (List.replicate k '0' ++ natStr n) 0 false = some n := by
+    rw [digitsVal_digits _ hd 0 false (Or.inl hne)]
+    congr 1
+    rw [ofDigitChars_zeros k (natStr n) 0]; simp [natStr]
+  cases hs : List.replicate k '0' ++ natStr n with
+  | nil => exact absurd hs hne
+  | cons c cs =>
+    have hc : c.isDigit = true := hd c (by rw [hs]; simp)
+    have hm : c ≠ '-' := by intro h; rw [h] at hc; simp at hc
+    have hp : c ≠ '+' := by intro h; rw [h] at hc; simp at hc
+    rw [hs] at key
+    split
+    · rename_i heq; simp at heq; exact absurd heq.1 hm
+    · rename_i heq; simp at heq; exact absurd heq.1 hp
+    · simp [key]
+
+/-- a numeral as written — `k` leading zeros, then the canonical digits of `n`: its digit count -/
+theorem intDigitCount_zeros_natStr (k n : Nat) :
+    intDigitCount (List.replicate k '0' ++ natStr n) = k + (natStr n).length := by
+  rw [intDigitCount_digits]
+  · simp
+  · intro c hc
+    rcases List.mem_append.mp hc with h | h
+    · rw [(List.mem_replicate.mp h).2]; decide
+    · exact natStr_digits n c h
+
+theorem pyIntLim_zeros_natStr (k n : Nat) (h : k + (natStr n).length ≤ Ombott.Gen.intMaxStrDigits) :
+    pyIntLim (List.replicate k '0' ++ natStr n) = some (n : Int) := by
+  rw [pyIntLim_of_le (by rw [intDigitCount_zeros_natStr]; exact h)]; exact pyInt_zeros_natStr k n
+
+theorem pyIntLim_zeros_natStr_none (k n : Nat) (h : Ombott.Gen.intMaxStrDigits < k + (natStr n).length) :
+    pyIntLim (List.replicate k '0' ++ natStr n) = none :=
+  pyIntLim_of_gt (by rw [intDigitCount_zeros_natStr]; exact h)
+
+/-- number of digits of `str(n)` against a bound: `len(str(n)) ≤ k ↔ n < 10^k` -/
+theorem natStr_length_le_iff (n k : Nat) (hk : 0 < k) : (natStr n).length ≤ k ↔ n < 10 ^ k :=
+  Nat.length_toDigits_le_iff (by decide) hk
 
 end Py
